@@ -67,6 +67,10 @@ func run(c *harness.Ctx, i int) {
 	rng := c.Rng
 	desync.Digest = desync.SHA512256{}
 	sz := dsu.Sizes{Min: 64, Avg: 128, Max: 256}
+	if i%97 == 13 {
+		devices(c)
+		return
+	}
 	kind := []string{"chunker", "chunker", "equal-size", "zeros-mix"}[rng.Intn(4)]
 	nchunksWanted := []int{0, 1, 2, 5, 9, 10, 11, 40, 100, 379, 700}[rng.Intn(11)]
 	var blob []byte
@@ -217,4 +221,27 @@ func run(c *harness.Ctx, i int) {
 		c.Count("matches_accepted", 1)
 	}
 	c.Sample(map[string]interface{}{"index": kind, "chunks": nc, "n": n, "batch": batch, "mutation": mutation, "matches": want, "cli": useCLI})
+}
+
+// devices: for device files the length is not compared; the content still has to match.
+// /dev/zero matches any all-zero index, /dev/null (every read ends at once) matches none with chunks.
+func devices(c *harness.Ctx) {
+	rng := c.Rng
+	sz := dsu.Sizes{Min: 64, Avg: 128, Max: 256}
+	blob := make([]byte, 256*(1+rng.Intn(40))+rng.Intn(200))
+	idx := dsu.RefIndex(blob, sz)
+	n := 1 + rng.Intn(64)
+	c.Info("devices: all-zero index of %d chunks, n=%d", len(idx.Chunks), n)
+	c.LogInfo()
+	if err := desync.VerifyIndex(context.Background(), "/dev/zero", idx, n, &dsu.CountPB{}); err != nil {
+		c.Violation("device-match-rejected", "/dev/zero delivers the zeros an all-zero index describes, verify-index failed: %v", err)
+		return
+	}
+	if err := desync.VerifyIndex(context.Background(), "/dev/null", idx, n, &dsu.CountPB{}); err == nil {
+		c.Violation("mismatch-accepted:device-short", "/dev/null holds no data at all, yet verify-index accepted it for an index of %d bytes (n=%d)", idx.Length(), n)
+		return
+	}
+	c.Count("device_cases", 1)
+	c.NonTrivial("devices|c%d", min(len(idx.Chunks)/10, 4))
+	c.Sample(map[string]interface{}{"leg": "devices", "chunks": len(idx.Chunks), "n": n})
 }
